@@ -293,6 +293,26 @@ pub fn catalogue() -> Vec<Template> {
             lower_only: false,
         },
         Template {
+            name: "order 7 vs order 6 in the same rows, then another small allocation",
+            cfg: one.clone(),
+            setup: vec![],
+            threads: vec![
+                vec![get(7, 0, SlotSel::None)],
+                vec![get(6, 0, SlotSel::None), get(0, 0, SlotSel::None)],
+            ],
+            lower_only: false,
+        },
+        Template {
+            name: "order 8 vs order 7 in the same rows, then an order 3 allocation",
+            cfg: one.clone(),
+            setup: vec![],
+            threads: vec![
+                vec![get(8, 0, SlotSel::None)],
+                vec![get(7, 0, SlotSel::None), get(3, 0, SlotSel::None)],
+            ],
+            lower_only: false,
+        },
+        Template {
             name: "huge allocation vs base allocation",
             cfg: one.clone(),
             setup: vec![],
@@ -387,7 +407,7 @@ pub fn catalogue() -> Vec<Template> {
     ];
     // lower-only variants (direct lower.get/put): fewer steps per call, deeper interleavings
     let mut lo = Vec::new();
-    for i in [0usize, 1, 2, 4, 5, 10, 11] {
+    for i in [0usize, 1, 2, 3, 4, 6, 7, 12, 13] {
         let t = &v[i];
         lo.push(Template {
             name: t.name,
